@@ -367,6 +367,9 @@ impl Gate {
         };
         for con in &mut conns.connections {
             if let Some(con) = con.take() {
+                if let Some(channel) = &con.channel {
+                    channel.dissolve();
+                }
                 con.endpoint.dissolve_paths();
             }
         }
